@@ -827,7 +827,11 @@ class Check:
         cov["input_distribution"] = dist
 
         # 5. run model once, each C config
-        mrc, mout, merr = run_driver(mdrv, cases) if cases else (0, [], "")
+        try:
+            mrc, mout, merr = run_driver(mdrv, cases, timeout=(1800 if self.tier == "quick" else 7200)) if cases else (0, [], "")
+        except subprocess.TimeoutExpired:
+            raise RuntimeError("the model driver did not finish %d cases within its time limit (a generator produces cases "
+                               "that are too expensive for the extracted model)" % len(cases))
         if mrc != 0 or len(mout) != len(cases):
             raise RuntimeError("model driver failed rc=%s lines=%d/%d: %s" % (mrc, len(mout), len(cases), merr[-2000:]))
         nontrivial = set()
